@@ -195,7 +195,70 @@ def r3(db, rep):
     rep.floor("R3", "Drop impls of Trace types that finalize", n, 100)
 
 
+def r4(db, rep):
+    rep.rule("R4", "the ephemeron fix-point in Collector::mark_heap leaves its loop only after comparing the number of pending "
+                   "ephemerons after the pass (len() taken after retain_mut) with the number before that same pass (a value not "
+                   "reassigned between the pass and the comparison)")
+    fs = [f for f in db.fns.values() if cname(f.id) == "Collector::mark_heap" and f.krate == "boa_gc"]
+    if not rep.anchor("R4", "boa_gc Collector::mark_heap", fs):
+        return
+    f = fs[0]
+    rets = [b for b, t in f.calls() if cn(t).split("::")[-1] in ("retain_mut", "retain") and t["args"] and
+            op_local(t["args"][0]) is not None]
+    rets = [b for b in rets if b in f.reach_from(f.succs(b))]     # inside a loop
+    if not rep.anchor("R4", "retain_mut over the pending ephemerons inside a loop", rets):
+        return
+    R = rets[0]
+    after = f.reach_from(f.succs(R), avoid={R})
+    ok = False
+    detail = []
+    for sb in sorted(after):
+        bs = bool_switch(f, sb)
+        if not bs:
+            continue
+        l, fb, tb = bs
+        exits = [x for x in (fb, tb) if R not in f.reach_from([x])]
+        stays = [x for x in (fb, tb) if R in f.reach_from([x])]
+        if len(exits) != 1 or len(stays) != 1:
+            continue
+        pol, root = bool_origin(f, l)
+        if root[0] != "rv" or root[2].get("k") != "bin":
+            detail.append(f"loop exit at {f.loc(sb)} is not decided by a comparison")
+            continue
+        # blocks of this iteration between the pass and the exit test
+        between = {x for x in after if sb in f.reach_from([x], avoid={R})} | {sb}
+        cur_ok = prev_ok = False
+        for o in (root[2]["a"], root[2]["b"]):
+            lo = op_local(o)
+            if lo is None:
+                continue
+            rs = roots(f, lo)
+            if any(r[0] == "call" and cn(r[2]).split("::")[-1] == "len" and r[1] in between for r in rs):
+                cur_ok = True
+                continue
+            # the remembered size: follow copies to the variable, none of whose assignments may lie between
+            base = lo
+            for _ in range(8):
+                d = f.single_def(base)
+                if d and d[1] != "t" and d[2].get("k") == "use" and d[2]["o"][0] in ("c", "m") and len(d[2]["o"][1]) == 1:
+                    base = d[2]["o"][1][0]
+                    continue
+                break
+            defs_between = [b for b, i, r in f.defs().get(base, []) if b in between and not (b == sb)]
+            # a plain copy into a temp inside `between` is fine; a (re)assignment of the variable itself is not
+            if f.var_name(base) is not None or len(f.defs().get(base, [])) > 1:
+                prev_ok = not defs_between
+            detail.append(f"remembered size `{f.var_name(base) or '_' + str(base)}` assigned between pass and test at blocks {defs_between}")
+        if cur_ok and prev_ok:
+            ok = True
+    rep.ob("R4", "Collector::mark_heap:ephemeron-fixpoint-exit", ok,
+           "Collector::mark_heap: the ephemeron loop can stop although the last pass still made progress (its exit test does "
+           "not compare the size after the pass with the size before it) — values reachable only through a chain of "
+           "ephemerons are then swept while alive", detail=detail, loc=f.span)
+
+
 def run(db, rep, tier):
     r1(db, rep)
     r2(db, rep)
     r3(db, rep)
+    r4(db, rep)
